@@ -81,3 +81,252 @@ func (n *PipeNet) ServeRPC(db *zenodb.DB, addr string, id int, password string) 
 func (n *PipeNet) DialRPC(addr, password string) (rpc.Client, error) {
 	return rpc.Dial(addr, &rpc.ClientOpts{Password: password, Dialer: n.Dial})
 }
+
+// ---------------------------------------------------------------------------
+// SimNet: a connection-level network between named nodes with faults. Every
+// connection is an in-memory pipe whose two ends know which nodes they join;
+// a pair of nodes can be cut (connections die, dials are refused), delayed
+// (every write waits) or stalled once; a node can be isolated (process gone).
+
+type SimNet struct {
+	mu        sync.Mutex
+	listeners map[string]*pipeListener
+	conns     map[*simConn]bool
+	cut       map[string]bool
+	delay     map[string]time.Duration
+	stall     map[string]time.Duration
+	owners    map[interface{}]string // dialing server -> node name
+	last      time.Time              // last write on any connection
+	onFault   func(kind string)
+}
+
+func NewSimNet(onFault func(string)) *SimNet {
+	return &SimNet{listeners: map[string]*pipeListener{}, conns: map[*simConn]bool{}, cut: map[string]bool{}, delay: map[string]time.Duration{}, stall: map[string]time.Duration{}, owners: map[interface{}]string{}, onFault: onFault}
+}
+
+func pairKey(a, b string) string {
+	if a > b {
+		a, b = b, a
+	}
+	return a + "|" + b
+}
+
+type simConn struct {
+	net.Conn
+	n        *SimNet
+	from, to string
+	once     sync.Once
+	// writes are queued and carried by a pump goroutine (a network has
+	// buffers): the callers hold locks while they write, and a goroutine that
+	// sleeps with a lock held stops the bubble's clock
+	qmu    sync.Mutex
+	queue  []queued
+	notify chan struct{}
+	done   chan struct{}
+	broken bool
+}
+
+type queued struct {
+	b  []byte
+	at time.Time
+}
+
+func (n *SimNet) newConn(p net.Conn, from, to string) *simConn {
+	c := &simConn{Conn: p, n: n, from: from, to: to, notify: make(chan struct{}, 1), done: make(chan struct{})}
+	go c.pump()
+	return c
+}
+
+func (c *simConn) Write(b []byte) (int, error) {
+	n := c.n
+	n.mu.Lock()
+	dead := n.cut[pairKey(c.from, c.to)] || !n.conns[c]
+	n.last = time.Now()
+	n.mu.Unlock()
+	c.qmu.Lock()
+	if c.broken {
+		dead = true
+	}
+	if !dead {
+		c.queue = append(c.queue, queued{append([]byte(nil), b...), time.Now()})
+	}
+	c.qmu.Unlock()
+	if dead {
+		go c.Close()
+		return 0, fmt.Errorf("connection %s-%s reset", c.from, c.to)
+	}
+	select {
+	case c.notify <- struct{}{}:
+	default:
+	}
+	return len(b), nil
+}
+
+func (c *simConn) pump() {
+	for {
+		c.qmu.Lock()
+		batch := c.queue
+		c.queue = nil
+		c.qmu.Unlock()
+		if len(batch) == 0 {
+			select {
+			case <-c.notify:
+				continue
+			case <-c.done:
+				return
+			}
+		}
+		for _, q := range batch {
+			n := c.n
+			n.mu.Lock()
+			k := pairKey(c.from, c.to)
+			d, st := n.delay[k], n.stall[k]
+			delete(n.stall, k)
+			n.last = time.Now()
+			n.mu.Unlock()
+			if st > 0 {
+				n.onFault("fault.link.stall")
+				time.Sleep(st)
+			}
+			// latency, not bandwidth: every write arrives d after it was made
+			if wait := time.Until(q.at.Add(d)); d > 0 && wait > 0 {
+				time.Sleep(wait)
+			}
+			if _, err := c.Conn.Write(q.b); err != nil {
+				c.qmu.Lock()
+				c.broken = true
+				c.queue = nil
+				c.qmu.Unlock()
+				return
+			}
+		}
+	}
+}
+
+func (c *simConn) Close() error {
+	c.once.Do(func() {
+		c.n.mu.Lock()
+		delete(c.n.conns, c)
+		c.n.mu.Unlock()
+		close(c.done)
+	})
+	return c.Conn.Close()
+}
+
+// Listen (re)creates the listener of a node.
+func (n *SimNet) Listen(node string) net.Listener {
+	l := &pipeListener{addr: node, conns: make(chan net.Conn, 256), closed: make(chan struct{})}
+	n.mu.Lock()
+	// (an older listener of the node is left to its server to close: nobody
+	// can reach it any more)
+	n.listeners[node] = l
+	n.mu.Unlock()
+	return l
+}
+
+// SetOwner tells the net which node a dialing server object belongs to.
+func (n *SimNet) SetOwner(owner interface{}, node string) {
+	n.mu.Lock()
+	n.owners[owner] = node
+	n.mu.Unlock()
+}
+
+// DialerFor is installed as simhook.ServerDialerFn.
+func (n *SimNet) DialerFor(owner interface{}, dest string) func(string, time.Duration) (net.Conn, error) {
+	return func(addr string, timeout time.Duration) (net.Conn, error) {
+		n.mu.Lock()
+		from := n.owners[owner]
+		n.mu.Unlock()
+		return n.dial(from, dest)
+	}
+}
+
+func (n *SimNet) dial(from, to string) (net.Conn, error) {
+	n.mu.Lock()
+	l := n.listeners[to]
+	cut := n.cut[pairKey(from, to)]
+	n.mu.Unlock()
+	if from == "" {
+		return nil, fmt.Errorf("dial from a node that is gone")
+	}
+	if l == nil || cut {
+		return nil, fmt.Errorf("connection refused: %s -> %s", from, to)
+	}
+	p1, p2 := net.Pipe()
+	c1 := n.newConn(p1, from, to)
+	c2 := n.newConn(p2, from, to)
+	n.mu.Lock()
+	n.conns[c1], n.conns[c2] = true, true
+	n.mu.Unlock()
+	select {
+	case l.conns <- c2:
+		return c1, nil
+	case <-l.closed:
+		c1.Close()
+		c2.Close()
+		return nil, fmt.Errorf("connection refused: %s -> %s", from, to)
+	}
+}
+
+func (n *SimNet) closeWhere(match func(c *simConn) bool) {
+	n.mu.Lock()
+	var victims []*simConn
+	for c := range n.conns {
+		if match(c) {
+			victims = append(victims, c)
+		}
+	}
+	n.mu.Unlock()
+	for _, c := range victims {
+		c.Close()
+	}
+}
+
+// Cut breaks every connection between the two nodes and refuses new ones.
+func (n *SimNet) Cut(a, b string) {
+	k := pairKey(a, b)
+	n.mu.Lock()
+	n.cut[k] = true
+	n.mu.Unlock()
+	n.closeWhere(func(c *simConn) bool { return pairKey(c.from, c.to) == k })
+}
+
+func (n *SimNet) Heal(a, b string) {
+	n.mu.Lock()
+	delete(n.cut, pairKey(a, b))
+	n.mu.Unlock()
+}
+
+func (n *SimNet) SetDelay(a, b string, d time.Duration) {
+	n.mu.Lock()
+	n.delay[pairKey(a, b)] = d
+	n.mu.Unlock()
+}
+
+func (n *SimNet) Stall(a, b string, d time.Duration) {
+	n.mu.Lock()
+	n.stall[pairKey(a, b)] = d
+	n.mu.Unlock()
+}
+
+// Isolate removes a node's process from the network: its listener closes, its
+// connections die, the server object can no longer dial.
+func (n *SimNet) Isolate(node string, owner interface{}) {
+	n.mu.Lock()
+	// the listener object stays open (closing it would end the server's run
+	// loop behind the back of Server.Close): it just cannot be reached
+	delete(n.listeners, node)
+	delete(n.owners, owner)
+	n.mu.Unlock()
+	n.closeWhere(func(c *simConn) bool { return c.from == node || c.to == node })
+}
+
+// QuietFor reports how long no connection has carried a write.
+func (n *SimNet) QuietFor() time.Duration {
+	n.mu.Lock()
+	defer n.mu.Unlock()
+	if n.last.IsZero() {
+		return time.Hour
+	}
+	return time.Since(n.last)
+}
